@@ -1,0 +1,6 @@
+package types
+
+import "github.com/cosmos/cosmos-sdk/types/errors"
+
+// ErrNotEnoughPoolBalance is returned when the pool's recorded balance does not cover a payout
+var ErrNotEnoughPoolBalance = errors.Register(ModuleName, 12, "pool balance does not cover the amount")
